@@ -32,7 +32,7 @@ def named(table, axis):
 
 
 def split_scopes(text):
-    """split on '::' outside single quotes"""
+    """split on '::' outside single quotes ('' inside quotes toggles twice, i.e. stays inside)"""
     parts, cur, i, q = [], "", 0, False
     while i < len(text):
         ch = text[i]
@@ -72,7 +72,7 @@ def split_range(ref):
 def unquote(tok):
     """-> (label, is_abs)"""
     if len(tok) >= 2 and tok[0] == "'" and tok[-1] == "'":
-        tok = tok[1:-1]
+        tok = tok[1:-1].replace("''", "'")
     is_abs = tok.startswith("$")
     if is_abs:
         tok = tok[1:]
@@ -129,6 +129,7 @@ def resolve(text, config, host):
     if len(scopes) > 3:
         raise Unreadable(f"too many scopes in {text!r}")
     ref = scopes[-1]
+    scopes = [x[1:-1].replace("''", "'") if len(x) >= 2 and x[0] == "'" and x[-1] == "'" else x for x in scopes[:-1]] + [ref]
     p = parse_ref(ref)
     is_label = p["kind"] in ("label", "label_range")
     if len(scopes) == 3:
